@@ -34,6 +34,9 @@ var faultKinds = []string{
 	"stale_get_one_table_only",        // Get omits one entry of the IPv4 table (every other table is complete)
 	"ignore_flush_named_only",         // Flush of a named instance answers OK and removes nothing (ALL is honoured)
 	"old_primary_kept_on_equal_id",    // a session whose announced id equals the current id is still served as primary after another session announced the same id
+	// Get loses exactly one table; every other table is complete
+	"stale_get_nh_table",  // Get never returns next-hop entries
+	"stale_get_nhg_table", // Get never returns next-hop-group entries
 }
 
 func faultNumber(kind string) int {
@@ -70,6 +73,9 @@ func (f *faultServer) Get(req *spb.GetRequest, gs spb.GRIBI_GetServer) error {
 	if f.kind == "stale_get" {
 		return f.s.Get(req, &staleGet{GRIBI_GetServer: gs})
 	}
+	if f.kind == "stale_get_nh_table" || f.kind == "stale_get_nhg_table" {
+		return f.s.Get(req, &tableGet{GRIBI_GetServer: gs, nh: f.kind == "stale_get_nh_table"})
+	}
 	if f.kind == "stale_get_one_table_only" {
 		return f.s.Get(req, &staleGet{GRIBI_GetServer: gs, ipv4Only: true})
 	}
@@ -103,6 +109,24 @@ func (g *staleGet) Send(r *spb.GetResponse) error {
 		}
 	}
 	return g.GRIBI_GetServer.Send(r)
+}
+
+// tableGet drops every entry of one table (next-hops, or next-hop-groups) from the Get result.
+type tableGet struct {
+	spb.GRIBI_GetServer
+	nh bool
+}
+
+func (g *tableGet) Send(r *spb.GetResponse) error {
+	out := proto.Clone(r).(*spb.GetResponse)
+	out.Entry = out.Entry[:0]
+	for _, e := range r.GetEntry() {
+		if (g.nh && e.GetNextHop() != nil) || (!g.nh && e.GetNextHopGroup() != nil) {
+			continue
+		}
+		out.Entry = append(out.Entry, e)
+	}
+	return g.GRIBI_GetServer.Send(out)
 }
 
 // faultStream sits between the gRPC stream and the reference server's Modify handler.
